@@ -13,8 +13,11 @@ def RecvLate (c : Chan) : Prop := c.recvState = .eof ∨ c.recvState = .closePen
 def SendLate (c : Chan) : Prop := c.sendState = .closePending ∨ c.sendState = .closed
 
 structure StepOuts (c : Chan) (ev : Ev) (c' : Chan) (os : List Out) : Prop where
-  shape : ∃ ds tl, os = ds ++ tl ∧ allDataOuts ds ∧ (tl = [] ∨ tl = [.eof] ∨ tl = [.lost])
-  eofOut : Out.eof ∈ os → c'.recvState = .eof ∧ c'.recvBuf = []
+  shape : ∃ ds tl, os = ds ++ tl ∧ allDataOuts ds ∧ OutTail tl
+  eofOut : Out.eof ∈ os → c'.recvBuf = [] ∧
+    (c'.recvState = .eof ∨
+     (c'.recvState = .closed ∧ (c.recvEofPending = true ∨ (ev = .recv .close ∧ c.recvState = .eofPending))))
+  flagSrc : c'.recvEofPending = true → c.recvEofPending = true ∨ (ev = .recv .close ∧ c.recvState = .eofPending)
   eofState : c'.recvState = .eof → c.recvState = .eof ∨ Out.eof ∈ os
   lostOut : Out.lost ∈ os → c'.recvState = .closed
   quiet : RecvLate c → c.recvBuf = [] → (os = [] ∨ os = [.lost]) ∧ RecvLate c' ∧ c'.recvBuf = []
@@ -23,14 +26,14 @@ structure StepOuts (c : Chan) (ev : Ev) (c' : Chan) (os : List Out) : Prop where
   eofWait : c'.recvState = .eofPending →
     c'.recvPaused ≠ .no ∨ ev = .close ∨ (c.recvState = .eofPending ∧ c'.recvPaused = c.recvPaused)
 
-theorem shape_nil : ∃ ds tl, ([] : List Out) = ds ++ tl ∧ allDataOuts ds ∧ (tl = [] ∨ tl = [.eof] ∨ tl = [.lost]) :=
+theorem shape_nil : ∃ ds tl, ([] : List Out) = ds ++ tl ∧ allDataOuts ds ∧ OutTail tl :=
   ⟨[], [], rfl, trivial, Or.inl rfl⟩
 
 /-- a step that makes no callback and leaves the receive state, buffer and pause flag alone -/
 theorem StepOuts.silent {c c' : Chan} {ev : Ev} (h1 : c'.recvState = c.recvState) (h2 : c'.recvBuf = c.recvBuf)
-    (h3 : c'.recvPaused = c.recvPaused)
+    (h3 : c'.recvPaused = c.recvPaused) (h5 : c'.recvEofPending = c.recvEofPending)
     (h4 : SendLate c' → SendLate c ∨ ev = .close ∨ ev = .recv .close) : StepOuts c ev c' [] :=
-  ⟨shape_nil, by simp, fun h => Or.inl (h1 ▸ h), by simp,
+  ⟨shape_nil, by simp, fun h => Or.inl (h5 ▸ h), fun h => Or.inl (h1 ▸ h), by simp,
    fun hl hb => ⟨Or.inl rfl, by unfold RecvLate at *; rw [h1]; exact hl, h2 ▸ hb⟩,
    fun h => ⟨h1 ▸ h, rfl⟩, h4, fun h => Or.inr (Or.inr ⟨h1 ▸ h, h3⟩)⟩
 
@@ -57,8 +60,18 @@ theorem StepOuts.of_flushRecv {c c0 c' : Chan} {ev : Ev} {ms : List Msg} {os : L
     (hs : c0.recvState = c.recvState ∨ (c.recvState = .opn ∧ c0.recvState = .eofPending) ∨
           ((c.recvState = .opn ∨ c.recvState = .eofPending ∨ c.recvState = .eof) ∧ c0.recvState = .closePending))
     (hcl : c.recvState = .closed → c.recvBuf = [])
+    (hcp : c.recvState = .closePending → c.recvBuf ≠ [])
+    (hfl : c0.recvEofPending = true → c.recvEofPending = true ∨ (ev = .recv .close ∧ c.recvState = .eofPending))
+    (hflc : c.recvState = .eof → c0.recvState = .closePending → c0.recvEofPending = false)
     (hsl : SendLate c0 → SendLate c ∨ ev = .close ∨ ev = .recv .close) : StepOuts c ev c' os := by
-  refine ⟨sp.shape, fun h => (sp.eofOut h).2, ?_, fun h => (sp.lostOut h).1, ?_, ?_, ?_, fun h => Or.inl (sp.eofP h)⟩
+  refine ⟨sp.shape, ?_, fun h => hfl (sp.flagMono h), ?_, fun h => (sp.lostOut h).1, ?_, ?_, ?_,
+    fun h => Or.inl (sp.eofP h)⟩
+  · intro h
+    obtain ⟨hb', hc⟩ := sp.eofOut h
+    refine ⟨hb', ?_⟩
+    rcases hc with ⟨_, h2⟩ | ⟨_, hf, h2⟩
+    · exact Or.inl h2
+    · exact Or.inr ⟨h2, hfl hf⟩
   · intro h
     rcases sp.eofState h with h1 | h1
     · rcases hs with h2 | ⟨_, h2⟩ | ⟨_, h2⟩
@@ -77,11 +90,26 @@ theorem StepOuts.of_flushRecv {c c0 c' : Chan} {ev : Ev} {ms : List Msg} {os : L
     have hne : c0.recvState ≠ .eofPending := by
       unfold RecvLate at hlate0
       rcases hlate0 with h | h | h <;> (rw [h]; simp)
+    -- no EOF callback can come out of this call
+    have hnoeof : Out.eof ∉ os := by
+      intro hm
+      rcases (sp.eofOut hm).2 with ⟨h1, _⟩ | ⟨h1, hf, _⟩
+      · exact hne h1
+      · rcases hs with h3 | ⟨h3, _⟩ | ⟨h3, _⟩
+        · exact hcp (h3 ▸ h1) hcb
+        · unfold RecvLate at hl; rw [h3] at hl; simp at hl
+        · unfold RecvLate at hl
+          rcases h3 with h3 | h3 | h3
+          · rw [h3] at hl; simp at hl
+          · rw [h3] at hl; simp at hl
+          · have := hflc h3 h1
+            rw [this] at hf; cases hf
     refine ⟨?_, ?_, ?_⟩
-    · rcases sp.noData hcb0 with h | h | h
+    · rcases sp.noData hcb0 with h | h | h | h
       · exact Or.inl h
-      · exact absurd (sp.eofOut (by rw [h]; simp)).1 hne
+      · exact absurd (by rw [h]; simp) hnoeof
       · exact Or.inr h
+      · exact absurd (by rw [h]; simp) hnoeof
     · unfold RecvLate at *
       rcases sp.recvTrans with h | ⟨h, _⟩ | ⟨_, h⟩
       · rw [h]; exact hlate0
@@ -102,19 +130,21 @@ theorem StepOuts.of_flushRecv {c c0 c' : Chan} {ev : Ev} {ms : List Msg} {os : L
       · rw [h]; exact h0
       · rw [h0] at h; cases h
       · rw [h0] at h; cases h
-    · rcases sp.noData hcb0 with h | h | h
+    · rcases sp.noData hcb0 with h | h | h | h
       · exact h
-      · have := (sp.eofOut (by rw [h]; simp)).1; rw [h0] at this; cases this
+      · rcases (sp.eofOut (by rw [h]; simp)).2 with ⟨h5, _⟩ | ⟨h5, _⟩ <;> (rw [h0] at h5; cases h5)
+      · have := (sp.lostOut (by rw [h]; simp)).2; rw [h0] at this; cases this
       · have := (sp.lostOut (by rw [h]; simp)).2; rw [h0] at this; cases this
   · intro h
     exact hsl (sp.eff.sendLate h)
 
 /-- with the receive half still open nothing in `StepOuts` constrains a step that makes no EOF/lost callback -/
 theorem StepOuts.open_data {c c' : Chan} {ev : Ev} {os : List Out} (hs : c.recvState = .opn)
-    (hs' : c'.recvState = .opn) (ho : allDataOuts os)
+    (hs' : c'.recvState = .opn) (ho : allDataOuts os) (h5 : c'.recvEofPending = c.recvEofPending)
     (h4 : SendLate c' → SendLate c ∨ ev = .close ∨ ev = .recv .close) : StepOuts c ev c' os := by
   have hn := allDataOuts_not_mem os ho
-  refine ⟨⟨os, [], by simp, ho, Or.inl rfl⟩, fun h => absurd h hn.1, ?_, fun h => absurd h hn.2, ?_, ?_, h4, ?_⟩
+  refine ⟨⟨os, [], by simp, ho, Or.inl rfl⟩, fun h => absurd h hn.1, fun h => Or.inl (h5 ▸ h), ?_,
+    fun h => absurd h hn.2, ?_, ?_, h4, ?_⟩
   · intro h; rw [hs'] at h; cases h
   · intro hl; unfold RecvLate at hl; rw [hs] at hl; simp at hl
   · intro h; rw [hs] at h; cases h
@@ -125,15 +155,15 @@ theorem step_outs (c c' : Chan) (ev : Ev) (ms : List Msg) (os : List Out) (hw : 
   cases ev with
   | write dt bs =>
     obtain ⟨hs, _, rfl, ⟨_, hc, _⟩ | ⟨hne, h1⟩⟩ := step_write_ok h
-    · rw [hc]; exact StepOuts.silent rfl rfl rfl Or.inl
+    · rw [hc]; exact StepOuts.silent rfl rfl rfl rfl Or.inl
     · have hw0 : WFs { c with sendBuf := c.sendBuf ++ [(bs, dt)] } :=
         ⟨hw.s.chanOpen, by intro h2; simp [hs] at h2⟩
       have sp := flushSend_spec _ _ _ hw0 h1
-      exact StepOuts.silent sp.same.recvState sp.same.recvBuf sp.same.recvPaused (fun h => Or.inl (sp.sendLate h))
+      exact StepOuts.silent sp.same.recvState sp.same.recvBuf sp.same.recvPaused sp.same.recvEofPending (fun h => Or.inl (sp.sendLate h))
   | writeEof =>
     obtain ⟨h1, rfl⟩ := step_writeEof_ok h
-    obtain ⟨e, h2, h3, h4, _⟩ := writeEof_spec _ _ _ hw.s h1
-    exact StepOuts.silent h2 h3 h4 (fun h => Or.inl (e.sendLate h))
+    obtain ⟨e, h2, h3, h4, _, _, h6, _⟩ := writeEof_spec _ _ _ hw.s h1
+    exact StepOuts.silent h2 h3 h4 h6 (fun h => Or.inl (e.sendLate h))
   | close =>
     obtain ⟨c1, h1, h2⟩ := step_close_ok h
     have hsr : SameRecv c c1 := by
@@ -143,14 +173,16 @@ theorem step_outs (c c' : Chan) (ev : Ev) (ms : List Msg) (os : List Out) (hw : 
           ⟨by simp only [ne_eq, reduceCtorEq, not_false_eq_true, iff_true]; exact hop, by simp⟩
         have sp := flushSend_spec _ _ _ hw0 h1
         exact ⟨sp.same.initWindow, sp.same.readTypes, sp.same.writeTypes, sp.same.eofKeep, sp.same.sendPktsize,
-          sp.same.recvState, sp.same.recvWindow, sp.same.recvPaused, sp.same.recvBuf, sp.same.pauseAfter⟩
+          sp.same.recvState, sp.same.recvWindow, sp.same.recvPaused, sp.same.recvBuf, sp.same.pauseAfter,
+          sp.same.recvEofPending⟩
       · rw [hc1]; exact SameRecv.refl c
     rcases h2 with ⟨hr, hc', ho'⟩ | ⟨hr, hc', ho'⟩
     · have hss := discardRecv_spec c1
       rw [hc', ho']
-      refine ⟨?_, ?_, ?_, ?_, ?_, ?_, fun _ => Or.inr (Or.inl rfl), fun _ => Or.inr (Or.inl rfl)⟩
+      refine ⟨?_, ?_, fun hf => Or.inl (by rw [← hsr.recvEofPending, ← hss.recvEofPending]; exact hf), ?_, ?_, ?_, ?_,
+        fun _ => Or.inr (Or.inl rfl), fun _ => Or.inr (Or.inl rfl)⟩
       · rcases hss.fired with ⟨h3, _⟩ | ⟨h3, _⟩
-        · exact ⟨[], [.lost], by simp [h3], trivial, Or.inr (Or.inr rfl)⟩
+        · exact ⟨[], [.lost], by simp [h3], trivial, Or.inr (Or.inr (Or.inl rfl))⟩
         · rw [h3]; exact shape_nil
       · intro hm; rcases hss.fired with ⟨h3, _⟩ | ⟨h3, _⟩ <;> (rw [h3] at hm; simp at hm)
       · intro h3
@@ -173,54 +205,58 @@ theorem step_outs (c c' : Chan) (ev : Ev) (ms : List Msg) (os : List Out) (hw : 
       · intro hcl
         exact absurd (hsr.recvState ▸ hcl) hr
     · rw [hc', ho']
-      exact StepOuts.silent hsr.recvState hsr.recvBuf hsr.recvPaused (fun _ => Or.inr (Or.inl rfl))
+      exact StepOuts.silent hsr.recvState hsr.recvBuf hsr.recvPaused hsr.recvEofPending (fun _ => Or.inr (Or.inl rfl))
   | pause =>
     obtain ⟨rfl, _, rfl⟩ := step_pause_ok h
-    exact ⟨shape_nil, by simp, fun h => Or.inl h, by simp,
+    exact ⟨shape_nil, by simp, Or.inl, fun h => Or.inl h, by simp,
       fun hl hb => ⟨Or.inl rfl, hl, hb⟩, fun h => ⟨h, rfl⟩, Or.inl, fun _ => Or.inl (by simp)⟩
   | armPause k =>
     obtain ⟨rfl, _, rfl⟩ := step_arm_ok h
-    exact StepOuts.silent rfl rfl rfl Or.inl
+    exact StepOuts.silent rfl rfl rfl rfl Or.inl
   | resume =>
     rcases step_resume_ok h with ⟨_, h1⟩ | ⟨_, hc, _, ho⟩
     · have hw0 : WFs { c with recvPaused := .no } := ⟨hw.s.chanOpen, hw.s.drained⟩
-      exact StepOuts.of_flushRecv (flushRecv_spec _ _ _ _ hw0 h1) rfl (Or.inl rfl) hw.closedR Or.inl
-    · rw [hc, ho]; exact StepOuts.silent rfl rfl rfl Or.inl
+      exact StepOuts.of_flushRecv (flushRecv_spec _ _ _ _ hw0 h1) rfl (Or.inl rfl) hw.closedR hw.closePB Or.inl
+        (fun h1 h2 => by rw [h1] at h2; cases h2) Or.inl
+    · rw [hc, ho]; exact StepOuts.silent rfl rfl rfl rfl Or.inl
   | startReading =>
     rcases step_start_ok h with ⟨_, h1⟩ | ⟨_, hc, _, ho⟩
     · have hw0 : WFs { c with recvPaused := .no } := ⟨hw.s.chanOpen, hw.s.drained⟩
-      exact StepOuts.of_flushRecv (flushRecv_spec _ _ _ _ hw0 h1) rfl (Or.inl rfl) hw.closedR Or.inl
-    · rw [hc, ho]; exact StepOuts.silent rfl rfl rfl Or.inl
+      exact StepOuts.of_flushRecv (flushRecv_spec _ _ _ _ hw0 h1) rfl (Or.inl rfl) hw.closedR hw.closePB Or.inl
+        (fun h1 h2 => by rw [h1] at h2; cases h2) Or.inl
+    · rw [hc, ho]; exact StepOuts.silent rfl rfl rfl rfl Or.inl
   | recv m =>
     cases m with
     | data dt bs =>
       obtain ⟨hs, _, _, ha⟩ := step_recv_data_ok h
       rcases acceptData_cases c bs dt with ⟨_, h1⟩ | ⟨_, _, h1⟩ | ⟨_, _, _, h1⟩ | ⟨_, _, _, h1⟩
-      · rw [h1] at ha; cases ha; exact StepOuts.silent rfl rfl rfl Or.inl
-      · rw [h1] at ha; cases ha; exact StepOuts.silent rfl rfl rfl Or.inl
-      · rw [h1] at ha; cases ha; exact StepOuts.open_data hs hs trivial Or.inl
+      · rw [h1] at ha; cases ha; exact StepOuts.silent rfl rfl rfl rfl Or.inl
+      · rw [h1] at ha; cases ha; exact StepOuts.silent rfl rfl rfl rfl Or.inl
+      · rw [h1] at ha; cases ha; exact StepOuts.open_data hs hs trivial rfl Or.inl
       · rw [h1] at ha
         obtain ⟨sp, ho⟩ := deliverData_spec c bs dt
         rw [ha] at sp ho
         simp only at sp ho
         subst ho
-        refine StepOuts.open_data hs (sp.same.recvState.trans hs) trivial ?_
+        refine StepOuts.open_data hs (sp.same.recvState.trans hs) trivial sp.same.recvEofPending ?_
         intro hl; left; unfold SendLate at *; rw [← sp.same.sendState]; exact hl
     | adjust n =>
       obtain ⟨_, h1, rfl⟩ := step_recv_adjust_ok h
       have hw0 : WFs { c with sendWindow := c.sendWindow + n } := ⟨hw.s.chanOpen, hw.s.drained⟩
       have sp := flushSend_spec _ _ _ hw0 h1
-      exact StepOuts.silent sp.same.recvState sp.same.recvBuf sp.same.recvPaused (fun h => Or.inl (sp.sendLate h))
+      exact StepOuts.silent sp.same.recvState sp.same.recvBuf sp.same.recvPaused sp.same.recvEofPending (fun h => Or.inl (sp.sendLate h))
     | eof =>
       obtain ⟨hs, h1⟩ := step_recv_eof_ok h
       have hw0 : WFs { c with recvState := .eofPending } := ⟨hw.s.chanOpen, hw.s.drained⟩
-      exact StepOuts.of_flushRecv (flushRecv_spec _ _ _ _ hw0 h1) rfl (Or.inr (Or.inl ⟨hs, rfl⟩)) hw.closedR Or.inl
+      exact StepOuts.of_flushRecv (flushRecv_spec _ _ _ _ hw0 h1) rfl (Or.inr (Or.inl ⟨hs, rfl⟩)) hw.closedR hw.closePB
+        Or.inl (fun _ h2 => by cases h2) Or.inl
     | close =>
       obtain ⟨hop, ms1, h1, _⟩ := step_recv_close_ok h
       obtain ⟨hsr, _, _, _, _, _, _, _, hwf⟩ := closeSend_spec c hw.s
-      have hw0 : WFs { (closeSend c).1 with recvState := .closePending } := ⟨hwf.chanOpen, hwf.drained⟩
+      have hw0 : WFs { (closeSend c).1 with recvEofPending := decide (c.recvState = .eofPending), recvState := .closePending } := ⟨hwf.chanOpen, hwf.drained⟩
       exact StepOuts.of_flushRecv (flushRecv_spec _ _ _ _ hw0 h1) hsr.recvBuf
-        (Or.inr (Or.inr ⟨(recvOpenish_iff _).mp hop, rfl⟩)) hw.closedR (fun _ => Or.inr (Or.inr rfl))
+        (Or.inr (Or.inr ⟨(recvOpenish_iff _).mp hop, rfl⟩)) hw.closedR hw.closePB
+        (fun hf => Or.inr ⟨rfl, by simpa using hf⟩) (fun h1 _ => by simp [h1]) (fun _ => Or.inr (Or.inr rfl))
 
 theorem Eff.lateMono {c c' : Chan} {ms : List Msg} {os : List Out} (e : Eff c c' ms os) (h : SendLate c) :
     SendLate c' := by
@@ -304,7 +340,7 @@ theorem step_late (c c' : Chan) (ev : Ev) (ms : List Msg) (os : List Out) (hw : 
     | close =>
       obtain ⟨_, ms1, h1, _⟩ := step_recv_close_ok h
       obtain ⟨_, _, _, hst, _, _, _, _, hwf⟩ := closeSend_spec c hw.s
-      have hw0 : WFs { (closeSend c).1 with recvState := .closePending } := ⟨hwf.chanOpen, hwf.drained⟩
+      have hw0 : WFs { (closeSend c).1 with recvEofPending := decide (c.recvState = .eofPending), recvState := .closePending } := ⟨hwf.chanOpen, hwf.drained⟩
       intro _
       exact (flushRecv_spec _ _ _ _ hw0 h1).eff.lateMono (Or.inr hst)
 
@@ -352,8 +388,11 @@ theorem ginv_step (c c' : Chan) (ev : Ev) (ms : List Msg) (os : List Out) (h h' 
     · obtain ⟨hl, hb⟩ := hg.eofSeen hm
       obtain ⟨_, h2, h3⟩ := so.quiet hl hb
       exact ⟨h2, h3⟩
-    · obtain ⟨h1, h2⟩ := so.eofOut hm
-      exact ⟨Or.inl h1, h2⟩
+    · obtain ⟨h2, h1⟩ := so.eofOut hm
+      refine ⟨?_, h2⟩
+      rcases h1 with h1 | ⟨h1, _⟩
+      · exact Or.inl h1
+      · exact Or.inr (Or.inr h1)
   · intro hs
     rw [hdl]
     rcases so.eofState hs with h1 | h1
@@ -409,10 +448,7 @@ theorem ginv_step (c c' : Chan) (ev : Ev) (ms : List Msg) (os : List Out) (h h' 
           · rw [hd, h1] at hlost; simp at hlost
         rw [hd, htl2, hd', List.append_nil]
         refine ⟨ds ++ ds', tl', by simp, allDataOuts_append _ _ hds hds', ?_⟩
-        rcases htl' with h1 | h1 | h1
-        · exact Or.inl h1
-        · exact Or.inr (Or.inl h1)
-        · exact Or.inr (Or.inr (Or.inl h1))
+        exact htl'
   · intro ha
     rw [hac] at ha
     simp only [Bool.or_eq_true, decide_eq_true_eq] at ha
